@@ -769,7 +769,15 @@ pub fn jobs_c05(tier: Tier) -> Vec<Job> {
     let mut core = FuChecker::new("c05-fu-reward", vec!["F3", "F4"], FAlpha::Reward, vec![c05_custody]);
     core.reward_denoms = vec!["lp1"];
     core.state_oracles = vec![c05_drain];
-    vec![explore_job(full, tier.pick(2, 3), Caps::default()), explore_job(core, tier.pick(3, 4), Caps::default())]
+    let mut v = vec![explore_job(full, tier.pick(2, 3), Caps::default()), explore_job(core, tier.pick(3, 4), Caps::default())];
+    // farm funding under the other fee configurations (zero fee, fee in the reward denom): every fund shape of the farm alphabet
+    for (i, fee) in [("uusdc", 0u128), ("uom", 0), ("uusdc", 1000)].into_iter().enumerate() {
+        let mut c = FuChecker::new(&format!("c05-fu-farms-feecfg{}", i + 1), vec!["F0", "F2"], FAlpha::Farms, vec![c05_custody]);
+        c.farm_fee = (fee.0.to_string(), fee.1);
+        c.state_oracles = vec![c05_drain];
+        v.push(explore_job(c, tier.pick(2, 4), Caps::default()));
+    }
+    v
 }
 pub fn jobs_c06(tier: Tier) -> Vec<Job> {
     let mut r = FuChecker::new("c06-fu-reward", vec!["F1", "F2", "F3"], FAlpha::Reward, vec![c06_rewards]);
